@@ -385,6 +385,7 @@ pub fn handle(req: &J) -> J {
         let mut s = shared.borrow_mut();
         s.want_trace = wants("trace");
         s.want_executed = wants("executed");
+        s.lim_gas = cfg.gas_limit;
         if wants("forks") {
             // JUMPIs whose target is pushed by the instruction right before them and is a JUMPDEST, from our own scan
             // of the bytes (a JUMPI is not a JUMPDEST, so it can only be reached from that PUSH)
